@@ -378,18 +378,22 @@ theorem safe_updRest {id1 id2 A loc n oldId : Bytes} {d : Nat} (o2 : List Nat)
       · simp at hq
   · simp at hq
 
-theorem update_prefix_inv (ver : Bytes) {id1 id2 loc : Bytes} {t₀ : Target} {n r : Bytes} {d : Nat}
+/-- the invariant at every prefix, with what the hash resolves to: once the first two requests are
+    applied (and whenever nothing had to be done) it is the LOCAL key -/
+theorem update_prefix_inv' (ver : Bytes) {id1 id2 loc : Bytes} {t₀ : Target} {n r : Bytes} {d : Nat}
     {X : Int} {now : Int} (P : UpdPre id1 id2 loc t₀ n r d X now) (o1 o2 : List Nat)
     (ho1 : d ∈ o1) (k : Nat) :
     ∃ n' r', n' ≠ [] ∧ getHash (applyAll t₀ ((updateReqs ver t₀ loc [id1, id2] o1 o2 now).take k)).hash
         [id1, id2] = some (n', r') ∧
-      Holds [id1, id2] (applyAll t₀ ((updateReqs ver t₀ loc [id1, id2] o1 o2 now).take k)) n' d X := by
+      Holds [id1, id2] (applyAll t₀ ((updateReqs ver t₀ loc [id1, id2] o1 o2 now).take k)) n' d X ∧
+      ((n ≠ loc ∨ id1 ≠ r) → 2 ≤ k → n' = loc ∧ r' = id1) ∧
+      (¬ (n ≠ loc ∨ id1 ≠ r) → n' = n ∧ r' = r) := by
   obtain ⟨c, hgc, hcX, hcq, hfetch⟩ := getCheckpoint_of_holds ver P.holds o1 ho1
   rw [updateReqs_shape ver o1 o2 now P.hn P.hn0 hgc]
   by_cases hbr : n ≠ loc ∨ id1 ≠ r
   case neg =>
     simp only [hbr, if_false, List.take_nil]
-    exact ⟨n, r, P.hn0, P.hn, P.holds⟩
+    exact ⟨n, r, P.hn0, P.hn, P.holds, fun h => h.elim, fun _ => ⟨rfl, rfl⟩⟩
   simp only [hbr, if_true]
   -- facts about what GetCheckpoint returned
   obtain ⟨c', hc', hoff', hrid'⟩ := fetch_spec [id1, id2] (t₀.cps d n) (P.holds.parses d)
@@ -434,12 +438,12 @@ theorem update_prefix_inv (ver : Bytes) {id1 id2 loc : Bytes} {t₀ : Target} {n
       have : ¬ (db = d ∧ n = loc) := fun h => hnl h.2
       simp [this]
   cases k with
-  | zero => exact ⟨n, r, P.hn0, P.hn, P.holds⟩
+  | zero => exact ⟨n, r, P.hn0, P.hn, P.holds, fun _ h => absurd h (by omega), fun h => absurd trivial h⟩
   | succ k =>
   cases k with
   | zero =>
     simp only [List.take_succ_cons, List.take_zero, applyAll, List.foldl_cons, List.foldl_nil]
-    exact ⟨n, r, P.hn0, P.hn, hholds1⟩
+    exact ⟨n, r, P.hn0, P.hn, hholds1, fun _ h => absurd h (by omega), fun h => absurd trivial h⟩
   | succ k =>
     simp only [List.take_succ_cons, applyAll, List.foldl_cons]
     -- the state after the second request
@@ -536,6 +540,15 @@ theorem update_prefix_inv (ver : Bytes) {id1 id2 loc : Bytes} {t₀ : Target} {n
     have hsafe := safe_updRest (id1 := id1) (id2 := id2) (A := A) (loc := loc) (d := d) o2 hAold
     have := inv_applyAll P.hne P.h1 hA ((updRest n c'.runId id1 o2).take k) hinv
       (fun q hq => hsafe q (mem_take hq))
-    exact ⟨loc, id1, P.hloc, this.hash, this.holds⟩
+    exact ⟨loc, id1, P.hloc, this.hash, this.holds, fun _ _ => ⟨rfl, rfl⟩, fun h => absurd trivial h⟩
+
+theorem update_prefix_inv (ver : Bytes) {id1 id2 loc : Bytes} {t₀ : Target} {n r : Bytes} {d : Nat}
+    {X : Int} {now : Int} (P : UpdPre id1 id2 loc t₀ n r d X now) (o1 o2 : List Nat)
+    (ho1 : d ∈ o1) (k : Nat) :
+    ∃ n' r', n' ≠ [] ∧ getHash (applyAll t₀ ((updateReqs ver t₀ loc [id1, id2] o1 o2 now).take k)).hash
+        [id1, id2] = some (n', r') ∧
+      Holds [id1, id2] (applyAll t₀ ((updateReqs ver t₀ loc [id1, id2] o1 o2 now).take k)) n' d X := by
+  obtain ⟨n', r', h1, h2, h3, _, _⟩ := update_prefix_inv' ver P o1 o2 ho1 k
+  exact ⟨n', r', h1, h2, h3⟩
 
 end GunYu.Checkpoint
